@@ -255,6 +255,27 @@ pub fn run(ctx: &Ctx, c01: bool, c02: bool) -> i32 {
         for p in adversarial_roots() {
             perft_check(ctx, "adversarial", &p, if quick { 2 } else { 3 }, None);
         }
+        // the same walk through the command-line front end
+        if std::path::Path::new(&crate::ucidrv::cli_path()).exists() {
+            let mut roots: Vec<Pos> = perft_roots().into_iter().map(|x| x.1).collect();
+            roots.extend(adversarial_roots().into_iter().take(if quick { 6 } else { 26 }));
+            let next = std::sync::atomic::AtomicUsize::new(0);
+            std::thread::scope(|s| {
+                for _ in 0..crate::explore::threads() {
+                    s.spawn(|| loop {
+                        let i = next.fetch_add(1, std::sync::atomic::Ordering::Relaxed);
+                        if i >= roots.len() {
+                            break;
+                        }
+                        for d in 1..=(if quick { 3 } else { 4 }) {
+                            crate::clichecks::perft_cli(ctx, &roots[i], d);
+                        }
+                    });
+                }
+            });
+        } else {
+            ctx.note("CLI binary not built: `weechess perft` not exercised in this run");
+        }
     }
     if c02 {
         // coordinate resolver on a sub-space: adversarial roots, perft roots and a strided
